@@ -214,9 +214,18 @@ func (h *Hub) connectFoundService(remoteService *api.ServiceDetails, host, port,
 	dataHandler := ws.NewWebsocketConnection(conn, remoteService.SKI())
 	shipConnection := ship.NewConnectionHandler(h, dataHandler, ship.ShipRoleClient,
 		h.localService.ShipID(), remoteService.SKI(), remoteService.ShipID())
-	shipConnection.Run()
 
+	// make the connection known before it runs, so removing or cancelling the pairing finds it from now on
 	h.registerConnection(shipConnection)
+
+	// the pairing may have been removed or cancelled while this connection was being
+	// established. Those calls could not find the connection then, so it has to be ended here
+	if !remoteService.Trusted() {
+		shipConnection.CloseConnection(false, 4500, "User close")
+		return nil
+	}
+
+	shipConnection.Run()
 
 	return nil
 }
